@@ -167,11 +167,11 @@ def _lines(ctx):
     endy = 1995 if ctx.thorough else 1985
     plan = [(HAUDE_LINE[0] % ("075", 10001), "EN", None, endy)]
     for i, m in ((1, 2), (2, 3), (7, 4)):
-        ln, fmt = waterlib.TRACE_LINES[i]
+        ln, fmt = waterlib.common_period_lines()[i]
         plan.append((ln, fmt, m, endy))
     plan.append((MUN_LINE[0] % 5, "DE", None, 2018 if ctx.thorough else 2013))
     if ctx.thorough:
-        for i, (ln, fmt) in enumerate(waterlib.TRACE_LINES):
+        for i, (ln, fmt) in enumerate(waterlib.common_period_lines()):
             plan.append((ln, fmt, 2 + (i % 3), endy))
         plan.append((HAUDE_LINE[0] % ("160", 10002), "EN", None, endy))
         for m in (2, 3, 4):      # real weather without global radiation: sunshine hours
